@@ -535,6 +535,12 @@ class StdioClient:
                 if self.process and self.process.returncode is None:
                     with anyio.CancelScope(shield=True):
                         await self._terminate_process()
+                # Release the pipes as well: a child that floods its output leaves
+                # the stdout reader paused, which then never sees EOF and would
+                # keep its descriptor open until a garbage collection
+                if self.process and self.process.returncode is not None:
+                    with anyio.CancelScope(shield=True):
+                        await self.process.aclose()
             except Exception as e:
                 logger.debug(f"Error during stdio client shutdown: {e}")
 
